@@ -42,7 +42,7 @@ type MemFS struct {
 	dirMode         fs.FileMode // dirMode is the default fs.FileMode for a directory.
 	fileMode        fs.FileMode // fileMode is de default fs.FileMode for a file.
 	lastId          *uint64     // lastId is the last unique id used to identify files uniquely.
-	renameSeq       *uint64     // renameSeq counts the entries moved by Rename : a change invalidates the path walks in progress.
+	renameSeq       *uint64     // renameSeq counts the entries moved by Rename or removed : a change invalidates the path walks in progress.
 	name            string      // name is the name of the file system.
 	avfs.CurDirFn               // CurDirFn provides current directory functions to a file system.
 	avfs.CurUserFn              // CurUserFn provides current user functions to a file system.
